@@ -20,7 +20,8 @@ The translator is a symbolic executor of the NumPy subset whose meaning does not
                np.fill_diagonal, `if` on specialised parameters (copy=True, flag=..), calls of other bct functions (inlined by
                translating THEIR current source), `for u in range(n)` whose iterations are independent (iteration u reads
                only loop-invariant values and writes only cell u of vectors allocated before the loop -> LetV; `if` inside
-               becomes a guard), `while True: <A>; if <set>.size == 0: break; <B>` where B only zeroes rows / columns of
+               becomes a guard; a full-range `for j in range(n)` nested inside is a SUM over j of what its body adds with
+               `vec[u] += e`; two loop variables may only be compared for equality: `j != q` -> IEq), `while True: <A>; if <set>.size == 0: break; <B>` where B only zeroes rows / columns of
                the set (-> IterM over n rounds, then A once more), return of a value or a tuple.
 
 Everything else raises Untranslatable and the function (or the one output) is REPORTED as not translatable: explicit
@@ -63,6 +64,10 @@ def Op(o, a, b):
     if a[0] == 'Cst' and b[0] == 'Cst' and o in ('Add', 'Sub', 'Mul') or (o == 'Div' and a[0] == 'Cst' and b[0] == 'Cst' and b[1] != 0):
         x, y = a[1], b[1]
         return Cst({'Add': x + y, 'Sub': x - y, 'Mul': x * y, 'Div': (x / y) if y != 0 else 0}[o])
+    if o == 'Add' and a == C0:
+        return b
+    if o in ('Add', 'Sub') and b == C0:
+        return a
     return ('Op', o, a, b)
 
 
@@ -484,6 +489,8 @@ class Frame:
         self.guard = None
         self.loop_assigned = set()
         self.loop_written = set()
+        self.acc = []              # stack of {vector name: summand} of the enclosing reduction loops
+        self.rguard = []           # guard at the entry of each reduction loop
 
     # ---------- statements
     def block(self, stmts):
@@ -510,6 +517,8 @@ class Frame:
             ops = {ast.Add: ast.Add, ast.Sub: ast.Sub, ast.Mult: ast.Mult, ast.Div: ast.Div}
             if type(st.op) not in ops:
                 bad('augmented assignment operator', st)
+            if self.acc and isinstance(st.target, ast.Subscript):
+                return self.accumulate(st)
             if isinstance(st.target, ast.Name):
                 v = self.env.get(st.target.id)
                 if isinstance(v, Arr) and v.kind != 'S':
@@ -636,6 +645,8 @@ class Frame:
         sl = tgt.slice
         # ---- per-node loop: C[u] = scalar
         if self.loopvar is not None:
+            if self.acc:
+                bad('plain store inside a nested loop (the value of its last iteration would win)', st)
             if not (isinstance(sl, ast.Name) and isinstance(self.env.get(sl.id), Node) and self.env[sl.id] is self.loopvar and X.kind == 'V'):
                 bad('inside a per-node loop only  vec[loop variable] = value  is a store', st)
             if nm in self.loop_assigned:
@@ -669,7 +680,10 @@ class Frame:
             if isinstance(a, IdxComp) and isinstance(b2, IdxComp) and a.set is b2.set and (a.pos, b2.pos) == (0, 1):
                 return self.store_set(nm, X, a.set, value, st)
             bad('store subscript', st)
-        s = self.as_set(self.expr(sl), X.rank, st)
+        sv = self.expr(sl)
+        if isinstance(sv, Arr) and sv.kind == 'S':
+            bad('store at an explicit node index', st)
+        s = self.as_set(sv, X.rank, st)
         return self.store_set(nm, X, s, value, st)
 
     def store_set(self, nm, X, s, value, st):
@@ -715,13 +729,18 @@ class Frame:
         if not (isinstance(n, Arr) and n.kind == 'S' and n.t == ('Nn',)):
             bad('loop bound is not the number of nodes', st)
         if self.loopvar is not None:
-            bad('nested loops', st)
+            return self.for_reduce(st, n)
         u = Node(fresh())
         saved = dict(self.env)
         self.loop_written = {x.value.id for s_ in st.body for x in ast.walk(s_)
                              if isinstance(x, ast.Subscript) and isinstance(x.ctx, ast.Store) and isinstance(x.value, ast.Name)}
         self.loopvar, self.cur, self.loop_assigned = u, {}, set()
         self.b.loop += 1
+        for s_ in st.body:
+            for x in ast.walk(s_):
+                if isinstance(x, ast.Name) and isinstance(x.ctx, ast.Store):
+                    self.env[x.id] = Poison('assigned in the loop body: read before its assignment it would hold the previous iteration\'s value')
+                    self.loop_assigned.add(x.id)
         self.env[st.target.id] = u
         try:
             self.block(st.body)
@@ -739,6 +758,55 @@ class Frame:
             # iteration u read X only through cur (its own cell); any other read of nm was rejected in expr()
             x = fresh()
             self.env[nm] = self.b.bind(Arr('V', (x,), subst(t, {u.var: x}), None, False, X.oid))
+
+    def accumulate(self, st):
+        """inside a reduction loop (a full-range loop nested in a per-node loop):  vec[u] += e  /  vec[u] -= e"""
+        tgt = st.target
+        if not (isinstance(tgt.value, ast.Name) and isinstance(tgt.slice, ast.Name) and self.env.get(tgt.slice.id) is self.loopvar
+                and type(st.op) in (ast.Add, ast.Sub)):
+            bad('inside a nested full-range loop only  vec[outer loop variable] += value  is a store', st)
+        nm = tgt.value.id
+        X = self.env.get(nm)
+        if not (isinstance(X, Arr) and X.kind == 'V' and X.inf is None) or nm in self.loop_assigned:
+            bad('accumulator', st)
+        if X.oid in self.borrowed:
+            bad('callee updates its argument in place', st)
+        v = self.expr(st.value)
+        if not (isinstance(v, Arr) and v.kind == 'S' and v.inf is None):
+            bad('summand', st)
+        t = v.t if isinstance(st.op, ast.Add) else Op('Sub', C0, v.t)
+        if self.guard is not None:
+            t = If(self.guard, t, C0)
+        a = self.acc[-1]
+        a[nm] = t if nm not in a else Op('Add', a[nm], t)
+
+    def for_reduce(self, st, n):
+        """for j in range(n) nested in a per-node loop: a SUM over all nodes j of what its body adds to vec[u]"""
+        j = Node(fresh())
+        saved = dict(self.env)
+        assigned = set()
+        for s_ in st.body:
+            for x in ast.walk(s_):
+                if isinstance(x, ast.Name) and isinstance(x.ctx, ast.Store):
+                    self.env[x.id] = Poison('assigned in the loop body: read before its assignment it would hold the previous iteration\'s value')
+                    assigned.add(x.id)
+        self.env[st.target.id] = j
+        self.acc.append({})
+        try:
+            self.block(st.body)
+        finally:
+            a = self.acc.pop()
+        env = dict(saved)
+        for k in assigned | {st.target.id}:
+            env[k] = Poison('bound inside a loop (value of the last iteration)')
+        self.env = env
+        for nm, t in a.items():
+            tot = Sum(j.var, t)
+            if self.acc:
+                self.acc[-1][nm] = tot if nm not in self.acc[-1] else Op('Add', self.acc[-1][nm], tot)
+            else:
+                X = self.env[nm]
+                self.cur[nm] = Op('Add', self.cur.get(nm, X.at(self.loopvar.var)), tot)
 
     def while_(self, st):
         """while True: A; if <set>.size == 0: break; B     with B = zeroing rows / columns of one matrix M by the set.
@@ -762,6 +830,9 @@ class Frame:
         Bstores = []
         for s in B:
             if isinstance(s, ast.Assign) and isinstance(s.targets[0], ast.Subscript) and isinstance(s.targets[0].value, ast.Name):
+                sl_ = s.targets[0].slice
+                if not (isinstance(sl_, ast.Tuple) and len(sl_.elts) == 2 and sorted(ast.unparse(x) for x in sl_.elts) == sorted([':', setname])):
+                    bad('store after the break is not  M[<break set>, :] = c  /  M[:, <break set>] = c  (it must be a no-op when the set is empty)', s)
                 mats.add(s.targets[0].value.id); Bstores.append(s)
             elif isinstance(s, ast.AugAssign) and isinstance(s.target, ast.Name) and s.target.id not in [n.id for a in A for n in ast.walk(a) if isinstance(n, ast.Name)]:
                 Bstores.append(None)       # a counter not read by A (checked below: must not be live afterwards)
@@ -782,8 +853,11 @@ class Frame:
         self.b.lets = []
         saved_env = dict(self.env)
         x, y = fresh(), fresh()
-        self.env[M] = Arr('M', (x, y), ('Mx', mid, x, y), None, False, X0.oid)
+        placeholder = Arr('M', (x, y), ('Mx', mid, x, y), None, False, X0.oid)
+        self.env[M] = placeholder
         self.block(A)
+        if self.env.get(M) is not placeholder:
+            bad('the part of the loop before the break changes the loop matrix', st)
         s = self.env.get(setname)
         if not isinstance(s, IdxSet):
             bad('break test is not on an index set', st)
@@ -886,7 +960,7 @@ class Frame:
 
     def transpose(self, v, e):
         if isinstance(v, Arr) and v.kind == 'M':
-            return Arr('M', (v.vars[1], v.vars[0]), v.t, v.inf, v.isbool)
+            return Arr('M', (v.vars[1], v.vars[0]), v.t, v.inf, v.isbool, v.oid)     # a view: same buffer
         if isinstance(v, Arr):
             return v
         bad('transpose of %s' % type(v).__name__, e)
@@ -987,6 +1061,17 @@ class Frame:
             bad('chained comparison', e)
         a, b = self.expr(e.left), self.expr(e.comparators[0])
         op = type(e.ops[0])
+        if op in (ast.In, ast.NotIn):
+            def cv(v):
+                if isinstance(v, Py):
+                    return ('py', v.v)
+                if isinstance(v, Arr) and v.kind == 'S' and v.t[0] == 'Cst':
+                    return ('num', v.t[1])
+                bad('membership test on a computed value', e)
+            if not isinstance(b, PyTuple):
+                bad('membership test in something that is not a literal tuple', e)
+            r = cv(a) in [cv(x) for x in b.items]
+            return Py(r if op is ast.In else not r)
         if isinstance(a, Py) or isinstance(b, Py):
             def pv(v):
                 if isinstance(v, Py):
@@ -1000,6 +1085,9 @@ class Frame:
             if op in (ast.IsNot, ast.NotEq):
                 return Py(x != y if op is ast.NotEq else not (x is y))
             bad('ordering of non-numeric constants', e)
+        if isinstance(a, Node) and isinstance(b, Node) and op in (ast.Eq, ast.NotEq):
+            t = ('IEq', a.var, b.var)        # the only thing that may be asked about two nodes: are they the same node
+            return Arr('S', (), t if op is ast.Eq else Not(t), None, True)
         if isinstance(a, Node) or isinstance(b, Node):
             bad('comparison involving a node index', e)
         if isinstance(a, InfConst) or isinstance(b, InfConst):
@@ -1234,7 +1322,7 @@ class Frame:
             v = ev(0)
             if not isinstance(v, Arr):
                 bad('%s of %s' % (fn, type(v).__name__), e)
-            v = Arr(v.kind, v.vars, v.t, v.inf, v.isbool)
+            v = Arr(v.kind, v.vars, v.t, v.inf, v.isbool, v.oid if (fn == 'np.asarray' and 'dtype' not in kw) else None)
             if 'dtype' in kw:
                 return self.astype(v, ast.unparse(kw['dtype']), e)
             return v
@@ -1305,7 +1393,7 @@ class Frame:
             # the loop's own output vector: only its cell at the loop node may be read
             nm = e.value.id
             X = self.env.get(nm)
-            if isinstance(sl, ast.Name) and self.env.get(sl.id) is self.loopvar and isinstance(X, Arr) and X.kind == 'V' and X.inf is None:
+            if isinstance(sl, ast.Name) and self.env.get(sl.id) is self.loopvar and isinstance(X, Arr) and X.kind == 'V' and X.inf is None and not self.acc:
                 return Arr('S', (), self.cur.get(nm, X.at(self.loopvar.var)))
             bad('a vector written by the loop is read inside the loop other than at its own cell (cross-iteration dependency)', e)
         # tuple results of inlined calls: f(X)[k]
@@ -1545,6 +1633,8 @@ TARGETS = [
     T('degrees_und'), T('degrees_dir'), T('strengths_und'), T('strengths_dir'), T('strengths_und_sign'), T('jdegree'),
     T('density_und'), T('density_dir'),
     T('clustering_coef_bu'), T('clustering_coef_bd'), T('clustering_coef_wu'), T('clustering_coef_wd'),
+    T('clustering_coef_wu_sign'), T('clustering_coef_wu_sign:zhang', 'clustering_coef_wu_sign', fixed={'coef_type': 'zhang'}),
+    T('clustering_coef_wu_sign:costantini', 'clustering_coef_wu_sign', fixed={'coef_type': 'costantini'}),
     T('transitivity_bu'), T('transitivity_bd'), T('transitivity_wu'), T('transitivity_wd'),
     T('binarize'), T('normalize'), T('invert'), T('threshold_absolute', scalars=['thr']),
     T('weight_conversion:binarize', 'weight_conversion', fixed={'wcm': 'binarize'}),
@@ -1659,12 +1749,24 @@ def emit(res):
             + (('  specialised: ' + ', '.join('%s=%r' % kv for kv in tg['fixed'].items())) if tg['fixed'] else '')))
         L.append('Definition %s : prog :=\n%s.' % (t['ident'], coq_prog(t['prog'])))
         L.append('')
-    L.append('Definition gen_table : list (string * prog) :=')
-    L.append('  [' + ';\n   '.join('("%s"%%string, %s)' % (t['name'], t['ident']) for t in res['table']) + '].')
+    L.append('(* the programs, in the order the harness addresses them (run_gen idx), and their names *)')
+    L.append('Definition gen_list : list prog :=')
+    L.append('  [' + ';\n   '.join(t['ident'] for t in res['table']) + '].')
+    L.append('Definition gen_names : list string :=')
+    L.append('  [' + ';\n   '.join('"%s"%%string' % t['name'] for t in res['table']) + '].')
+    L.append('Definition gen_table : list (string * prog) := combine gen_names gen_list.')
+    L.append('Example gen_table_progs : map snd gen_table = gen_list.')
+    L.append('Proof. reflexivity. Qed.')
+    L.append('')
+    fp = int(hashlib.sha1('\n'.join(L).encode()).hexdigest()[:12], 16)
+    res['fingerprint'] = fp
+    L.append('(* fingerprint of the table above: the harness asks the extracted driver for it, so that a driver built from a')
+    L.append('   different tree (a concurrent run with another VERIF_REPO) is never compared with this run\'s implementation *)')
+    L.append('Definition gen_fingerprint : Z := %d%%Z.' % fp)
     L.append('')
     L.append('(* asked for but NOT translatable (outside the index-symmetric subset, reported by the check):')
     for k, v in res['untranslatable'].items():
-        L.append('   %s : %s' % (k, v.replace('(*', '( *').replace('*)', '* )')))
+        L.append('   %s : %s' % (k, v.replace('(*', '( *').replace('*)', '* )').replace('"', "'")))
     L.append('*)')
     return '\n'.join(L) + '\n'
 
@@ -1691,3 +1793,59 @@ if __name__ == '__main__':
         for t in r['table']:
             if t['name'].startswith(sys.argv[2]):
                 print(coq_prog(t['prog']))
+
+
+# ------------------------------------------------------------------------------------------------ self-test (fail-closed)
+NEGATIVE = {
+    'explicit node index': "def f(A):\n    return A[0, :]",
+    'explicit cell': "def f(A):\n    d = np.sum(A, axis=0)\n    return d[0]",
+    'node 0 special in a loop': "def f(A):\n    n = len(A)\n    C = np.zeros((n,))\n    for u in range(n):\n        if u == 0:\n            C[u] = 1\n    return C",
+    'position arithmetic': "def f(A):\n    n = len(A)\n    C = np.zeros((n,))\n    for u in range(n):\n        C[u] = A[u, u + 1]\n    return C",
+    'short range': "def f(A):\n    n = len(A)\n    C = np.zeros((n,))\n    for u in range(n - 1):\n        C[u] = 1\n    return C",
+    'previous iteration': "def f(A):\n    n = len(A)\n    C = np.zeros((n,))\n    t = 0\n    for u in range(n):\n        C[u] = t\n        t = np.sum(A[u, :])\n    return C",
+    'cross-iteration read': "def f(A):\n    n = len(A)\n    C = np.zeros((n,))\n    for u in range(n):\n        C[u] = np.sum(C) + 1\n    return C",
+    'last iteration leaks': "def f(A):\n    n = len(A)\n    C = np.zeros((n,))\n    for u in range(n):\n        t = np.sum(A[u, :])\n        C[u] = t\n    return t",
+    'triu': "def f(A):\n    return np.sum(np.triu(A))",
+    'argsort': "def f(A):\n    return np.argsort(np.sum(A, axis=0))",
+    'slice': "def f(A):\n    return np.sum(A[1:, :], axis=0)",
+    'alias then mutate': "def f(A):\n    B = A\n    np.fill_diagonal(B, 0)\n    return A",
+    'view then mutate': "def f(A):\n    B = A.T\n    np.fill_diagonal(A, 5)\n    return B",
+    'bool minus': "def f(A):\n    return (A > 0) - (A < 0)",
+    'astype int truncation': "def f(A):\n    return (A * 0.5).astype(int)",
+    'while general': "def f(A):\n    k = 0\n    while k < 3:\n        k += 1\n    return A",
+    'np.where as sequence': "def f(A):\n    i, j = np.where(A)\n    return i[0]",
+    'two index sets mixed': "def f(A):\n    d = np.sum(A, axis=0)\n    i, j = np.where(A > 0)\n    k, l = np.where(A < 0)\n    return np.sum(d[i] * d[l])",
+    'inf escapes': "def f(A):\n    K = np.sum(A, axis=0)\n    K[K == 0] = np.inf\n    return K",
+    'unknown numpy': "def f(A):\n    return np.cumsum(np.sum(A, axis=0))",
+    'shape': "def f(A):\n    return np.zeros(A.shape)",
+    'order of two nodes': "def f(A):\n    n = len(A)\n    C = np.zeros((n,))\n    for u in range(n):\n        for j in range(n):\n            if j < u:\n                C[u] += A[u, j]\n    return C",
+    'last inner iteration wins': "def f(A):\n    n = len(A)\n    C = np.zeros((n,))\n    for u in range(n):\n        for j in range(n):\n            C[u] = A[u, j]\n    return C",
+    'running sum read': "def f(A):\n    n = len(A)\n    C = np.zeros((n,))\n    for u in range(n):\n        for j in range(n):\n            C[u] += A[u, j] * C[u]\n    return C",
+    'enumerate': "def f(A):\n    n = len(A)\n    C = np.zeros((n,))\n    for u, r in enumerate(A):\n        C[u] = np.sum(r)\n    return C",
+}
+POSITIVE = {
+    'reduction': ("def f(A):\n    n = len(A)\n    C = np.zeros((n,))\n    for u in range(n):\n        for j in range(n):\n            if j != u:\n                C[u] += A[j, u]\n    return C",
+                  ('LetV', 1, ('Sum', 2, ('If', ('If', ('IEq', 2, 0), ('Cst', F(0)), ('Cst', F(1))), ('Mx', 0, 2, 0), ('Cst', F(0)))), ('OutV', ('Vc', 1, 0)))),
+    'degree': ("def f(A):\n    return np.sum(A != 0, axis=0)", ('OutV', ('Sum', 2, ('If', ('Op', 'Eqq', ('Mx', 0, 2, 0), ('Cst', F(0))), ('Cst', F(0)), ('Cst', F(1)))))),
+    'fill_diagonal': ("def f(A):\n    A = A.copy()\n    np.fill_diagonal(A, 0)\n    return A",
+                      ('LetM', 1, ('If', ('IEq', 0, 1), ('Cst', F(0)), ('Mx', 0, 0, 1)), ('OutM', ('Mx', 1, 0, 1)))),
+    'loop': ("def f(A):\n    n = len(A)\n    C = np.zeros((n,))\n    for u in range(n):\n        C[u] = np.sum(A[u, :])\n    return C",
+             ('LetV', 1, ('Sum', 2, ('Mx', 0, 0, 2)), ('OutV', ('Vc', 1, 0)))),
+}
+
+
+def selftest():
+    """-> list of failures: every NEGATIVE snippet must be rejected, every POSITIVE one must give exactly the expected program"""
+    out = []
+    for nm, src in NEGATIVE.items():
+        fd = ast.parse(src).body[0]
+        r = translate_target({'f': fd}, T('f'))
+        if any(o['prog'] is not None for o in r['outputs']):
+            out.append('NOT REJECTED: ' + nm)
+    for nm, (src, want) in POSITIVE.items():
+        fd = ast.parse(src).body[0]
+        r = translate_target({'f': fd}, T('f'))
+        got = r['outputs'][0]['prog'] if r['outputs'] else None
+        if got != want:
+            out.append('WRONG: %s: %r (%s)' % (nm, got, r['why']))
+    return out
